@@ -75,6 +75,8 @@ def setup_classes(check):
             owner = cls.current
             owner.finalize_calls[id(render_data)] = owner.finalize_calls.get(id(render_data), 0) + 1
             super()._finalize_render_data_(render_data)
+            if getattr(owner, "finalizer_fails", False):
+                raise RuntimeError("the render class's finalizer failed")
 
         def _render_(self, render_data, render_args):
             d = render_data[Renderable]
